@@ -135,7 +135,14 @@ impl Beatmap {
         writer.write_all(b"\n")?;
         self.encode_hit_objects(&mut writer)?;
 
-        writer.flush()
+        // Like `write_all` does for writes, retry a flush that was merely
+        // interrupted.
+        loop {
+            match writer.flush() {
+                Err(err) if err.kind() == ErrorKind::Interrupted => {}
+                res => return res,
+            }
+        }
     }
 
     fn encode_general<W: Write>(&self, writer: &mut W) -> IoResult<()> {
